@@ -7,7 +7,7 @@ import z3
 
 from .values import (Sym, PyRaise, ReturnEx, BreakEx, ContinueEx, Infeasible, Unsupported, ClassV, Obj, EnumMember,
                      FuncV, BoundMethod, Native, ModuleV, Opaque, VList, VDict, VSet, GenV, RangeV, NOTFOUND,
-                     ENUM_BASE, BUILTIN_EXC, LabelSort, StateSort, ST_F, ST_T, ST_U, GTypeSort, GT)
+                     ENUM_BASE, BUILTIN_EXC, LabelSort, StateSort, ST_F, ST_T, ST_U, GTypeSort, GT, Poison, CLOCK)
 
 MAX_UNROLL = 400
 
@@ -66,6 +66,9 @@ class Ctx:
         # (an `unknown` answer keeps the path, which is sound)
         self.solver.set('smt.mbqi', False)
         self.events = []          # free-form log (model classes record frame events here)
+        self.barriers = []        # frame conditions of the proof rules in force (rules R1 / R6), innermost last
+        self.t_setup = None       # allocation clock when the contract's setup finished
+        self.field_writes = []    # attribute assignments on objects older than that: (class, attribute, old type, new type)
         self.decisions = 0
         self.concrete_only = False
 
@@ -184,6 +187,13 @@ class Interp:
         self.lib = _lib.Library(self)
         self.string_mode = False   # True: python str <-> z3 String (C11); False: str used as label -> Label const
         self.inline_log = set()
+
+    _NO_BARRIERS = ()
+
+    @property
+    def barriers(self):
+        """frame conditions in force on the current path (rules R1 / R6); none while modules are loaded"""
+        return self.ctx.barriers if self.ctx is not None else self._NO_BARRIERS
 
     # ---------------------------------------------------------------- modules ---------------
     def find_module_file(self, modname):
@@ -486,13 +496,18 @@ class Interp:
                 e = e.get('__parent__')
             if e is None:
                 raise Unsupported('nonlocal target not found')
+        if self.barriers:
+            self.barrier_name(e, name)
         e[name] = val
 
     def lookup_name(self, name, env, module):
         e = env
         while e is not None:
             if name in e:
-                return e[name]
+                v = e[name]
+                if type(v) is Poison:
+                    raise Unsupported(f'frame condition: `{name}` is read but {v.why}')
+                return v
             e = e.get('__parent__')
         if module is not None and name in module.env:
             return module.env[name]
@@ -803,10 +818,39 @@ class Interp:
         walk(cls)
         return out
 
+    # ---- frame conditions (rules R1 / R6) ---------------------------------------------------------------------
+    def barrier_obj(self, c, what):
+        """A concrete container that exists since before the havoc of a cut loop / recursive procedure is loop-carried
+        state the invariant does not describe: mutating it inside the body makes the function undecided."""
+        if isinstance(c, (VList, VDict, VSet)):
+            for b in self.barriers:
+                if c.born < b.t0 and id(c) not in b.allow:
+                    raise Unsupported(f'frame condition of {b.what}: {what} on a {type(c).__name__[1:].lower()} that exists before the '
+                                      f'cut and is not re-created by the invariant (loop-carried state outside the contract)')
+
+    def barrier_field(self, o, name):
+        for b in self.barriers:
+            if o.born < b.t0 and (o.oid, name) not in b.fields and id(o) not in b.allow:
+                old = o.fields.get(name)
+                if isinstance(old, Model):
+                    continue
+                raise Unsupported(f'frame condition of {b.what}: attribute `{name}` of a {o.cls.name} object that exists before the cut '
+                                  f'is assigned but not described by the invariant')
+
+    def barrier_name(self, e, name):
+        for b in self.barriers:
+            if id(e) in b.chain and (id(e), name) not in b.names:
+                raise Unsupported(f'frame condition of {b.what}: `{name}` is assigned but not described by the invariant')
+
     def setattr(self, v, name, val):
         if isinstance(v, Obj):
             if v.cls.dataclass == 'frozen':
                 self.raise_('AttributeError', 'frozen dataclass')
+            if self.barriers:
+                self.barrier_field(v, name)
+            t0 = getattr(self.ctx, 't_setup', None)
+            if t0 is not None and v.born < t0:
+                self.ctx.field_writes.append((v.cls.name, name, isinstance(v.fields.get(name), Model), name in v.fields))
             v.fields[name] = val
         elif isinstance(v, Model):
             v.m_setattr(self, name, val)
@@ -1496,6 +1540,8 @@ class Interp:
                     if not _concrete_key(k):
                         raise Unsupported('defaultdict insert with symbolic key')
                     v = self.call(c.default_factory, [], {})
+                    if self.barriers:
+                        self.barrier_obj(c, 'defaultdict insertion')
                     c.d[k] = v
                     return v
                 self.raise_('KeyError', repr(k))
@@ -1553,6 +1599,8 @@ class Interp:
         raise Unsupported(f'subscript of {type(c).__name__}')
 
     def setitem(self, c, k, v):
+        if self.barriers:
+            self.barrier_obj(c, 'item assignment')
         if isinstance(c, VDict):
             if not _concrete_key(k):
                 # symbolic key: overwrite if equal to an existing key on this path, else unsupported insert
@@ -1595,6 +1643,8 @@ class Interp:
         raise Unsupported(f'item assignment on {type(c).__name__}')
 
     def delitem(self, c, k):
+        if self.barriers:
+            self.barrier_obj(c, 'item deletion')
         if isinstance(c, VDict):
             if _concrete_key(k):
                 if k not in c.d:
@@ -1782,6 +1832,84 @@ def _load(t):
 
 def _is_name(d, names):
     return isinstance(d, ast.Name) and d.id in names
+
+
+class Barrier:
+    """Frame condition in force while the body of a cut loop (R1) / a recursive procedure (R6) is executed."""
+
+    def __init__(self, what, t0, chain, names, fields=(), allow=()):
+        self.what, self.t0 = what, t0
+        self.chain = set(chain)          # ids of the environments that exist at the cut
+        self.names = set(names)          # (id(env), name) the rule knows about (re-bound by the havoc, or poisoned)
+        self.fields = set(fields)        # (oid, attribute) re-bound by the havoc
+        self.allow = set(allow)          # ids of objects the specification declares as described in place
+
+
+def env_chain(env):
+    out = []
+    while env is not None:
+        out.append(env)
+        env = env.get('__parent__')
+    return out
+
+
+def stored_names(stmts):
+    """Names (re)bound by the statements themselves: assignment / augmented assignment / for / with / except / import /
+    def / walrus targets; nested function bodies contribute the names they declare `nonlocal`; comprehension targets are
+    local to the comprehension."""
+    out = set()
+
+    def target(t):
+        if isinstance(t, ast.Name):
+            out.add(t.id)
+        elif isinstance(t, (ast.Tuple, ast.List)):
+            for e in t.elts:
+                target(e)
+        elif isinstance(t, ast.Starred):
+            target(t.value)
+
+    def visit(n):
+        if isinstance(n, (ast.FunctionDef, ast.AsyncFunctionDef, ast.ClassDef)):
+            out.add(n.name)
+            for m in ast.walk(n):
+                if isinstance(m, ast.Nonlocal):
+                    out.update(m.names)
+            return
+        if isinstance(n, ast.Lambda):
+            return
+        if isinstance(n, (ast.Assign,)):
+            for t in n.targets:
+                target(t)
+        elif isinstance(n, (ast.AugAssign, ast.AnnAssign)):
+            target(n.target)
+        elif isinstance(n, (ast.For, ast.AsyncFor)):
+            target(n.target)
+        elif isinstance(n, (ast.With, ast.AsyncWith)):
+            for i in n.items:
+                if i.optional_vars is not None:
+                    target(i.optional_vars)
+        elif isinstance(n, ast.ExceptHandler):
+            if n.name:
+                out.add(n.name)
+        elif isinstance(n, (ast.Import, ast.ImportFrom)):
+            for a in n.names:
+                out.add((a.asname or a.name).split('.')[0])
+        elif isinstance(n, ast.NamedExpr):
+            target(n.target)
+        elif isinstance(n, ast.Delete):
+            for t in n.targets:
+                target(t)
+        elif isinstance(n, (ast.ListComp, ast.SetComp, ast.DictComp, ast.GeneratorExp)):
+            for m in ast.walk(n):
+                if isinstance(m, ast.NamedExpr):
+                    target(m.target)
+            return
+        for c in ast.iter_child_nodes(n):
+            visit(c)
+
+    for s_ in stmts:
+        visit(s_)
+    return out
 
 
 def _walk_no_nested(fn):
